@@ -396,6 +396,12 @@ def recipes_for(ctx):
     return rs
 
 
+def size_of(t):
+    """approximate number of integers shipped for a trace"""
+    n = sum(len(e["obs"]) * (6 if e["cx"] else 3) + 2 * len(e["g"]) for e in t["events"])
+    return n + 6 * len(t["chan"]) * (len(t["gref"]) + 3 * t["ne"]) + 2 * len(t["func"]) + 2 * len(t["gp"])
+
+
 def weight(r):
     n = (r["L"] + 1) ** 2
     return n * (30 if r["vec"]["type"] == "dense" else 3)
@@ -407,11 +413,17 @@ def run(ctx, explain=False):
     rs = recipes_for(ctx)
     order = sorted(range(len(rs)), key=lambda i: -weight(rs[i]))      # heavy first for load balance
     traces = pool_map(drive, [rs[i] for i in order], chunksize=1)
-    small = [t for t in traces if t["meta"]["recipe"]["vec"]["type"] != "dense"]
-    big = [t for t in traces if t["meta"]["recipe"]["vec"]["type"] == "dense"]
-    ctx.validate(TRACE, small, name="Trace_SHT(sparse+single)", timeout=1500, batch=1500)
-    big.sort(key=lambda t: t["L"])
-    ctx.validate(TRACE, big, name="Trace_SHT(dense)", timeout=1500, batch=ctx.pick(120, 60), nblocks=64)
+    # one TLC run per ~20 M integers (~80 MB) of trace data, light traces first
+    traces.sort(key=size_of)
+    batch, acc, k = [], 0, 0
+    for t in traces + [None]:
+        if t is None or (batch and acc + size_of(t) > 20_000_000):
+            k += 1
+            ctx.validate(TRACE, batch, name="Trace_SHT(batch %d)" % k, timeout=3000)
+            batch, acc = [], 0
+        if t is not None:
+            batch.append(t)
+            acc += size_of(t)
     Ls = sorted({r["L"] for r in rs})
     ctx.exhaustive = False
     ctx.rule = ("L in %s; per L and kind (real, complex): 3 dense Gaussian-integer vectors (every channel non-zero) "
